@@ -10,6 +10,7 @@ import Noodles.Bcf.DriverC10
 import Noodles.Gff.DriverC18
 import Noodles.Trunc.DriverC13
 import Noodles.Bam.DriverC05
+import Noodles.Bgzf.DriverC14
 namespace Noodles
 open Noodles.Wire
 
@@ -26,6 +27,7 @@ def dispatch (line : String) : String :=
   | "c18" :: rest => Gff.Driver.handleC18 rest
   | "c13" :: rest => Trunc.handleC13 rest
   | "c05" :: rest => Bam.Driver.handle rest
+  | "c14" :: rest => Bgzf.SM.handleC14 rest
   | _ => "bad-suite"
 
 end Noodles
